@@ -13,6 +13,7 @@ import (
 )
 
 type WriteSet struct {
+	Except map[string]bool // with All: heap variables that are nevertheless preserved
 	Fresh map[string]bool // variables written only at references allocated during the call
 	All   bool
 	Names map[string]bool
@@ -39,6 +40,16 @@ func (w *WriteSet) union(o *WriteSet) {
 		return
 	}
 	if o.All {
+		if !w.All {
+			w.Except = o.Except
+		} else if w.Except != nil {
+			// keep only what both preserve
+			for k := range w.Except {
+				if o.Except == nil || !o.Except[k] {
+					delete(w.Except, k)
+				}
+			}
+		}
 		w.All = true
 	}
 	for k := range o.Names {
@@ -459,6 +470,21 @@ func (fc *FnCtx) modifiesToWS(ct *FuncContract, ws *WriteSet) {
 		}
 		defer func() {}()
 		_ = before
+		if strings.HasPrefix(m, "except(") && strings.HasSuffix(m, ")") {
+			// everything may change except the listed variables
+			tmp := newWS()
+			sub := *ct
+			sub.Modifies = splitTopLevel(m[7 : len(m)-1])
+			fc.modifiesToWS(&sub, tmp)
+			ws.All = true
+			if ws.Except == nil {
+				ws.Except = map[string]bool{}
+			}
+			for k := range tmp.Names {
+				ws.Except[k] = true
+			}
+			continue
+		}
 		if fresh {
 			tmp := newWS()
 			sub := *ct
